@@ -268,16 +268,17 @@ fn cmd_run(a: &Args) -> i32 {
     let known = load_known(a.get("known"));
     let replay_dir = a.get("replay-dir").unwrap_or("/verif/replays").to_string();
     let recheck = a.num("recheck", 0);
-    let res = run_batch(prop, seed, 0, runs, threads, &known, budget_s, true);
+    let first = a.num("first", 0);
+    let res = run_batch(prop, seed, first, runs, threads, &known, budget_s, true);
 
     // determinism re-check: the first runs again, single-threaded
     let mut recheck_ok = true;
     let mut rechecked = 0u64;
     if recheck > 0 && res.found.is_empty() {
         let n = recheck.min(runs).min(256);
-        let again = run_batch(prop, seed, 0, n, 1, &known, budget_s, false);
+        let again = run_batch(prop, seed, first, n, 1, &known, budget_s, false);
         rechecked = n;
-        let a1: Vec<(u64, u64)> = res.first_digests.iter().copied().filter(|x| x.0 < n).collect();
+        let a1: Vec<(u64, u64)> = res.first_digests.iter().copied().filter(|x| x.0 < first + n).collect();
         recheck_ok = a1 == again.first_digests;
     }
 
@@ -317,7 +318,7 @@ fn cmd_run(a: &Args) -> i32 {
     j.push_str("{\n");
     j.push_str(&format!("\"property\": {},\n", json_str(prop.name())));
     j.push_str(&format!("\"backend\": {},\n\"profile\": {},\n", json_str(backend()), json_str(profile())));
-    j.push_str(&format!("\"seed\": {},\n\"runs_requested\": {},\n\"runs\": {},\n", seed, runs, res.runs_done));
+    j.push_str(&format!("\"seed\": {},\n\"first_index\": {},\n\"runs_requested\": {},\n\"runs\": {},\n", seed, first, runs, res.runs_done));
     j.push_str(&format!("\"steps\": {},\n\"plies\": {},\n\"oracle_evaluations\": {},\n", res.stats.steps, res.stats.plies, res.stats.oracle_evals));
     j.push_str(&format!("\"distinct_states\": {},\n\"distinct_capped\": {},\n", res.distinct, res.distinct_capped));
     j.push_str(&format!("\"foreign_aborts\": {},\n\"boot_rejected\": {},\n", res.stats.foreign_aborts, res.stats.boot_rejected));
